@@ -1,0 +1,128 @@
+//! Verification hooks. Compiled only with `--cfg sas_lexer_verif`.
+//!
+//! This module is a seam for an external deterministic simulator: the lexer
+//! reports internal events to a per-thread callback, and reads a per-thread
+//! set of capacity knobs. With no callback installed and default knobs the
+//! behaviour is identical to a build without the flag.
+//!
+//! Nothing in here influences what the lexer produces; the callback may
+//! however block the calling thread or unwind (panic) out of the lexer.
+
+use std::cell::{Cell, RefCell};
+
+/// Events reported from inside the lexer.
+#[derive(Debug, Clone, Copy, PartialEq, Eq)]
+pub enum Event {
+    /// `Lexer::lex` entered. `len` is the source length in bytes.
+    LexStart { len: u32 },
+    /// One iteration of the main loop finished.
+    MainLoop {
+        remaining: u32,
+        mode_depth: u32,
+        checkpoint_live: bool,
+    },
+    /// `WorkTokenizedBuffer::add_token` is about to push.
+    AddToken { count: u32, at_capacity: bool },
+    /// `WorkTokenizedBuffer::insert_token` is about to insert.
+    InsertToken { at: u32, count: u32 },
+    /// `WorkTokenizedBuffer::add_line` is about to push.
+    AddLine { count: u32 },
+    /// `WorkTokenizedBuffer::add_string_literal` is about to append.
+    AddStrLit { len: u32, at: u32 },
+    /// `Lexer::checkpoint` called.
+    Checkpoint { was_live: bool },
+    /// `Lexer::clear_checkpoint` called.
+    ClearCheckpoint { was_live: bool },
+    /// `Lexer::rollback` called.
+    Rollback { had_checkpoint: bool },
+    /// `Lexer::finalize_lexing` entered.
+    Finalize { mode_depth: u32 },
+    /// `Lexer::lex` is about to return.
+    LexEnd { tokens: u32, errors: u32 },
+}
+
+/// Capacity knobs. `None` means "leave what the lexer chose".
+#[derive(Debug, Clone, Copy, Default, PartialEq, Eq)]
+pub struct Knobs {
+    pub token_cap: Option<usize>,
+    pub line_cap: Option<usize>,
+    pub str_lit_cap: Option<usize>,
+    pub mode_stack_cap: Option<usize>,
+}
+
+/// The callback type.
+pub type Callback = Box<dyn FnMut(&Event)>;
+
+thread_local! {
+    static CALLBACK: RefCell<Option<Callback>> = const { RefCell::new(None) };
+    static KNOBS: Cell<Knobs> = const { Cell::new(Knobs {
+        token_cap: None,
+        line_cap: None,
+        str_lit_cap: None,
+        mode_stack_cap: None,
+    }) };
+    static SHRINK: Cell<bool> = const { Cell::new(false) };
+}
+
+/// Installs (or removes) the callback of the current thread, returning the old one.
+pub fn set_callback(cb: Option<Callback>) -> Option<Callback> {
+    CALLBACK.with(|c| std::mem::replace(&mut *c.borrow_mut(), cb))
+}
+
+/// Sets the knobs of the current thread.
+pub fn set_knobs(knobs: Knobs) {
+    KNOBS.with(|k| k.set(knobs));
+}
+
+/// Returns the knobs of the current thread.
+#[must_use]
+pub fn knobs() -> Knobs {
+    KNOBS.with(Cell::get)
+}
+
+/// Asks the work buffer of the current thread to shrink its vectors
+/// to their length at the next hook site that supports it.
+pub fn request_shrink() {
+    SHRINK.with(|s| s.set(true));
+}
+
+pub(crate) fn take_shrink_request() -> bool {
+    SHRINK.with(|s| s.replace(false))
+}
+
+/// Applies a capacity knob to a vector: the capacity becomes
+/// (approximately) `max(len, cap)`.
+pub(crate) fn apply_vec_cap<T>(v: &mut Vec<T>, cap: Option<usize>) {
+    if let Some(cap) = cap {
+        if cap < v.capacity() {
+            v.shrink_to(cap);
+        } else {
+            v.reserve_exact(cap - v.len());
+        }
+    }
+}
+
+/// Same as `apply_vec_cap` for a string.
+pub(crate) fn apply_string_cap(s: &mut String, cap: Option<usize>) {
+    if let Some(cap) = cap {
+        if cap < s.capacity() {
+            s.shrink_to(cap);
+        } else {
+            s.reserve_exact(cap - s.len());
+        }
+    }
+}
+
+/// Reports an event to the callback of the current thread, if any.
+#[inline]
+pub(crate) fn emit(ev: Event) {
+    CALLBACK.with(|c| {
+        // try_borrow_mut: an event raised while the callback itself runs
+        // (it does not call the lexer, but be safe) is dropped
+        if let Ok(mut guard) = c.try_borrow_mut() {
+            if let Some(cb) = guard.as_mut() {
+                cb(&ev);
+            }
+        }
+    });
+}
